@@ -150,12 +150,18 @@ func c08(args []string) int {
 		"exttests": {"go.mod": "module w\n\ngo 1.21\n", "a/a.go": c08A, "a/a_test.go": c08ATest, "a/ext_test.go": c08AExtTest},
 		"three":    {"go.mod": "module w\n\ngo 1.21\n", "a/a.go": c08A, "a/a2.go": c08A2, "a/a_test.go": c08ATest, "b/b.go": c08B, "c/c.go": c08C},
 	}
+	// packages that share their package name and their file base names (two commands, two util packages)
+	asPkg := func(src, from, to string) string { return strings.Replace(src, "package "+from, "package "+to, 1) }
+	workspaces["samenames"] = map[string]string{"go.mod": "module w\n\ngo 1.21\n",
+		"cmd/alpha/main.go": asPkg(c08B, "b", "main") + "\nfunc main() {}\n", "cmd/beta/main.go": asPkg(c08A2, "a", "main") + "\nfunc main() {}\n",
+		"x/util/util.go": asPkg(c08A2, "a", "util"), "y/util/util.go": asPkg(c08B, "b", "util"), "z/util/util.go": asPkg(c08A, "a", "util"),
+		"x/util/util_test.go": asPkg(c08ATest, "a", "util"), "y/util/util_test.go": asPkg(c08ATest, "a", "util")}
 	for name, files := range workspaces {
 		writeTree(filepath.Join(base, name), files)
 	}
 	workspaces["files"] = map[string]string{"go.mod": "module w\n\ngo 1.21\n", "a/a.go": c08A, "a/a2.go": c08A2, "b/b.go": c08B}
 	writeTree(filepath.Join(base, "files"), workspaces["files"])
-	targets := map[string][]string{"single": {"./..."}, "intests": {"./..."}, "exttests": {"./..."}, "three": {"./..."}, "files": {"./a/a.go", "./a/a2.go"}}
+	targets := map[string][]string{"samenames": {"./..."}, "single": {"./..."}, "intests": {"./..."}, "exttests": {"./..."}, "three": {"./..."}, "files": {"./a/a.go", "./a/a2.go"}}
 	var cfgs []c08Cfg
 	cfgs = append(cfgs,
 		c08Cfg{"default", nil, nil},
@@ -183,10 +189,10 @@ func c08(args []string) int {
 	results := map[string]map[string]*result{} // ws|cfg -> fe -> result
 	var wg sync.WaitGroup
 	sem := make(chan struct{}, 12)
-	wsNames := []string{"single", "intests", "exttests", "three", "files"}
+	wsNames := []string{"single", "intests", "exttests", "three", "files", "samenames"}
 	for _, wsn := range wsNames {
 		for ci, c := range cfgs {
-			if tier == "quick" && wsn != "three" && wsn != "exttests" && ci >= 6 && ci%3 != 0 {
+			if tier == "quick" && wsn != "three" && wsn != "exttests" && wsn != "samenames" && ci >= 6 && ci%3 != 0 {
 				continue
 			}
 			for _, fe := range fes {
@@ -305,7 +311,7 @@ func c08(args []string) int {
 	c08InProcess(ev)
 
 	ev.Sample(map[string]interface{}{"workspace": "three packages with in-package tests", "config": "-enable=#style,hugeParam -disable=assignOp", "binaries": fes, "oracle": "identical sets of (file,line,col,checker,message), each exactly once"})
-	ev.Set("rule", "5 workspaces (single package; in-package tests; external tests; three packages; explicit file arguments) x configurations expressible in both flag dialects (default, enable-all, -go versions, 8 enable/disable list pairs, every checker parameter at a non-default value) x the 4 real binaries; go-critic is the reference. non-trivial = configuration with at least one diagnostic")
+	ev.Set("rule", "6 workspaces (single package; in-package tests; external tests; three packages; explicit file arguments; packages sharing package names and file base names) x configurations expressible in both flag dialects (default, enable-all, -go versions, 8 enable/disable list pairs, every checker parameter at a non-default value) x the 4 real binaries; go-critic is the reference. non-trivial = configuration with at least one diagnostic")
 	return ev.Finish()
 }
 
